@@ -110,6 +110,9 @@ def run_batch(spec):
                         if b.expired():
                             break
                         c07.run_arrival_fault(b, faults, shape, method, j, errno.ENOENT, spec["seed"])
+                        if j % 2 == 0:
+                            # the watch limit reached for that one directory: the others must be covered all the same
+                            c07.run_arrival_fault(b, faults, shape, method, j, errno.ENOSPC, spec["seed"])
         finally:
             faults.restore()
     elif spec["kind"] == "random":
